@@ -4,6 +4,7 @@ pub mod clientsim;
 pub mod handlers;
 pub mod httpscript;
 pub mod jgen;
+pub mod lowlevel;
 pub mod memsrv;
 pub mod msggen;
 pub mod oracle;
